@@ -2,7 +2,7 @@
    object types and the 2.1 observable types apart, which is what detect_spec_version
    relies on to tell a 2.0 SDO from a 2.1 SCO when neither carries spec_version.   *)
 From Coq Require Import NArith List String Bool.
-From V Require Import Base.UString Model.VersionDetect Gen.CallSites.
+From V Require Import Base.UString Base.Json Model.VersionDetect Gen.CallSites Proofs.C14Detect.
 Import ListNotations.
 
 Definition obs21_builtin : list ustring := map u reg_observables21.
@@ -29,3 +29,26 @@ Proof.
     apply negb_true_iff in H. exact H.
   - intros t Hin. apply umem_map_u. exact Hin.
 Qed.
+
+(* hypotheses of `emitted` are satisfiable on the built-in registry *)
+Lemma emitted_shapes_exist_pf :
+  emitted pinned_mode obs21_builtin v21
+    (JObj [(k_type, JStr (u "identity")); (k_spec_version, JStr v21); (k_id, JStr (u "identity--x"))])
+  /\ emitted pinned_mode obs21_builtin v20
+    (JObj [(k_type, JStr (u "identity")); (k_id, JStr (u "identity--x"))])
+  /\ emitted pinned_mode obs21_builtin v21
+    (JObj [(k_type, JStr (u "file")); (k_id, JStr (u "file--x"))]).
+Proof.
+  split; [|split].
+  - eapply em_obj21; reflexivity.
+  - eapply em_obj20; reflexivity.
+  - eapply em_sco21; reflexivity.
+Qed.
+
+(* ... and the collision is a real shape: with "x-c14-collide" registered as a 2.1 observable, the 2.0 object of that
+   name is read as 2.1 *)
+Lemma collision_witness_pf :
+  detect pinned_mode (u "x-c14-collide" :: obs21_builtin)
+    (JObj [(k_type, JStr (u "x-c14-collide")); (k_id, JStr (u "x-c14-collide--x")); (u "name", JStr (u "a"))])
+  = DVal (JStr v21).
+Proof. vm_compute. reflexivity. Qed.
